@@ -503,7 +503,13 @@ pub fn replay(ctx: &mut Ctx, case: &serde_json::Value) {
         );
         return;
     }
-    let c: Case = serde_json::from_value(json!({"entropy": case["entropy"], "trivia": case["trivia"], "opts": case["opts"], "features": case["features"]})).unwrap();
+    let c: Case = match serde_json::from_value(json!({"entropy": case["entropy"], "trivia": case["trivia"], "opts": case["opts"], "features": case["features"]})) {
+        Ok(c) => c,
+        Err(e) => {
+            ctx.health(false, format!("replay case does not deserialize: {}", e));
+            return;
+        }
+    };
     if ctx.id == "C12" {
         ctx.replay_one(&c, prop12, case.clone());
     } else {
